@@ -5,7 +5,6 @@ use serde::{Deserialize, Serialize};
 use serde_json::json;
 
 use super::c06::{self, Flags};
-use super::c07::show_samples;
 use super::common::*;
 use super::PropDef;
 use crate::cli::{self, run_ska};
